@@ -3,8 +3,12 @@
    schedule places sends at every step boundary of the listener (a superset of
    what asyncio allows).  Assumed, not proved: asyncio runs a task atomically
    between suspension points, transport.write is the only suspension point
-   inside the flush, and the woken node stays flagged sleeping during the flush
-   (so concurrent sends are parked). *)
+   inside the flush.  The full-strength statement is proved for schedules whose racing
+   sends park (Forall parks_only: the woken node stays flagged sleeping during the flush).
+   A send to a node flagged AWAKE whose write is still suspended when that node's wake signal
+   starts a flush is modelled too (FDirectBegin / FDirectEnd) and REFUTES the property:
+   C09_direct_race_refuted = known finding C09:direct-race (a parked command survived a
+   re-presentation of its node). *)
 From Coq Require Import List NArith ZArith Bool String.
 From AMS Require Import Models Flush FlushFacts.
 Import ListNotations.
@@ -16,7 +20,7 @@ Local Open Scope Z_scope.
    for each key of those nodes is the last value sent for it *)
 Theorem C09_no_lost_update :
   forall ops nodes,
-    NoDup (sent_tags ops) ->
+    Forall parks_only ops -> NoDup (sent_tags ops) ->
     let s := quiesce true (frun true finit ops) nodes in
     forall k t, In (node_of (k, t)) nodes ->
       last_for k (f_sent s) = Some t -> last_for k (f_written s) = Some t.
@@ -27,7 +31,7 @@ Print Assumptions C09_no_lost_update.
    was sent, and no value is written more often than it was sent *)
 Theorem C09_writes_were_sent :
   forall ops,
-    NoDup (sent_tags ops) ->
+    Forall parks_only ops -> NoDup (sent_tags ops) ->
     let s := frun true finit ops in
     incl (f_written s) (f_sent s) /\ NoDup (tags (f_written s)).
 Proof. exact writes_were_sent. Qed.
@@ -35,7 +39,7 @@ Print Assumptions C09_writes_were_sent.
 
 Theorem C09_writes_were_sent_at_quiescence :
   forall ops nodes,
-    NoDup (sent_tags ops) ->
+    Forall parks_only ops -> NoDup (sent_tags ops) ->
     let s := quiesce true (frun true finit ops) nodes in
     incl (f_written s) (f_sent s) /\ NoDup (tags (f_written s))
     /\ tags (f_sent s) = sent_tags ops.
@@ -44,7 +48,7 @@ Print Assumptions C09_writes_were_sent_at_quiescence.
 
 (* the invariant behind both, for every reachable state of every schedule *)
 Theorem C09_invariant :
-  forall ops s, FInv s -> NoDup (tags (f_sent s) ++ sent_tags ops) ->
+  forall ops s, Forall parks_only ops -> FInv s -> NoDup (tags (f_sent s) ++ sent_tags ops) ->
     FInv (frun true s ops) /\ tags (f_sent (frun true s ops)) = tags (f_sent s) ++ sent_tags ops.
 Proof. exact FInv_run. Qed.
 Print Assumptions C09_invariant.
@@ -58,6 +62,19 @@ Theorem C09_unguarded_pop_refuted :
        last_for k (f_sent s) = Some t /\ last_for k (f_written s) <> Some t.
 Proof. exact lost_update_refuted. Qed.
 Print Assumptions C09_unguarded_pop_refuted.
+
+(* KNOWN FINDING C09:direct-race.  A command is parked for node 1; node 1 presents itself again
+   (flagged awake, the parked command stays); the application sends a newer value, which is
+   written directly and whose write suspends; node 1's wake signal arrives and the flush writes
+   the stale parked value AFTER the newer one.  Both pops are guarded (736f88a, 3719329): no
+   update is dropped from the buffer, but the last value written is not the last value sent. *)
+Theorem C09_direct_race_refuted :
+  exists ops nodes k t,
+    In (node_of (k, t)) nodes
+    /\ let s := quiesce true (frun true finit ops) nodes in
+       last_for k (f_sent s) = Some t /\ last_for k (f_written s) <> Some t /\ f_buf s = [].
+Proof. exact direct_race_refuted. Qed.
+Print Assumptions C09_direct_race_refuted.
 
 Example C09_example :
   let ops := [FSend (3, 1, 2) 100; FSend (3, 0, 2) 200; FWake 3; FBegin; FSend (3, 1, 2) 101;
